@@ -233,6 +233,9 @@ func (c *Chain) CheckCtx() sdk.Context {
 }
 
 func (c *Chain) DeliverTx(bz []byte) (res abci.ResponseDeliverTx, ok bool) {
+	if queryNoise {
+		c.serveDryRun(bz)
+	}
 	ok = c.guard("DeliverTx", func() {
 		res = c.App.BaseApp.DeliverTx(abci.RequestDeliverTx{Tx: bz})
 	})
